@@ -932,3 +932,29 @@ MODELS_NORM = [(re.compile(r'<Range<usize> as ExactSizeIterator>::len'), range_l
 
 def str_ne(eng, c, a, g): return NOT(str_eq(eng, c, a, g))
 MODELS_NORM = [(re.compile(r'<&?str as PartialEq(<.*>)?>::ne'), str_ne)] + MODELS_NORM
+
+# ------------------------------------------------------------------ C01 edges kernel: HashMap<Url, V> entry API, find_map, BTreeSet<Url>
+def hashmap_entry_or_insert_with(eng, c, a, g):
+    e, clo = a[0], a[1]
+    u = uid(eng, e.key)
+    refs = []
+    for cnd, (r, p), m in containers(eng, e.mapptr):
+        n = len(m.present); sel = onehot_sel(u, n)
+        found = OR(*[AND(sel[i], m.present[i]) for i in range(n)])
+        newv = eng.call_closure(clo, [], AND(g, cnd, NOT(found)))
+        nm = MapModel([OR(m.present[i], sel[i]) for i in range(n)], [ite(AND(sel[i], NOT(m.present[i])), newv, m.vals[i]) for i in range(n)])
+        eng.write((r, p), nm, AND(g, cnd))
+        for i in range(n): refs.append((AND(cnd, sel[i]), (r, p + (('k', i),))))
+    return Ptr(refs)
+def iter_find_map(eng, c, a, g):
+    it = eng.load(a[0]) if isinstance(a[0], Ptr) else a[0]; clo = a[1]
+    res = none(); done = FALSE
+    for av, v in it.remaining():
+        if v is None or z3.is_false(av): continue
+        r = eng.call_closure(clo, [v], AND(g, av, NOT(done)))
+        hit = AND(av, NOT(done), opt_is_some(r))
+        res = ite(hit, r, res); done = OR(done, hit)
+    return res
+MODELS_NORM = [(re.compile(r'HashMap::<Url, .*>::entry'), indexmap_entry), (re.compile(r'Entry::<.*Url, .*>::or_insert_with::<.*'), hashmap_entry_or_insert_with),
+               (re.compile(r'HashMap::<Url, .*>::insert'), map_insert), (re.compile(r'<.* as Iterator>::find_map::<.*'), iter_find_map),
+               (re.compile(r'BTreeSet::<Url>::contains::<.*>'), set_contains)] + MODELS_NORM
